@@ -1,1 +1,145 @@
+//! Quiescence-based deadlock detector (E6).
+//!
+//! The monitored process has no timers, sockets or signals of its own: every blocking wait is a futex wait
+//! on another thread of the same process. Hence "the operation has not finished AND every thread except this
+//! sampler is sleeping AND no thread consumed CPU time AND no hook event happened between several samples one
+//! second apart" is a deadlock, reported as a violation with the per-thread last hook sites. A stall in which
+//! threads still burn CPU (loaded machine) is inconclusive, never a violation.
+use crate::cli::Cli;
+use serde_json::json;
+use std::sync::atomic::{AtomicBool, AtomicU64, Ordering};
+use std::sync::{Arc, Mutex};
+use std::time::{Duration, Instant};
 
+pub struct Watchdog {
+    pub beats: AtomicU64,
+    pub context: Mutex<String>,
+    pub armed: AtomicBool,
+    pub samples: AtomicU64,
+}
+
+fn thread_states(skip_tid: i32) -> Vec<(i32, char, u64)> {
+    let mut v = vec![];
+    if let Ok(rd) = std::fs::read_dir("/proc/self/task") {
+        for e in rd.flatten() {
+            let tid: i32 = match e.file_name().to_string_lossy().parse() {
+                Ok(t) => t,
+                Err(_) => continue,
+            };
+            if tid == skip_tid {
+                continue;
+            }
+            if let Ok(s) = std::fs::read_to_string(e.path().join("stat")) {
+                // pid (comm) state ... utime(14) stime(15)
+                if let Some(p) = s.rfind(')') {
+                    let f: Vec<&str> = s[p + 2..].split_whitespace().collect();
+                    if f.len() > 13 {
+                        let st = f[0].chars().next().unwrap_or('?');
+                        let ut: u64 = f[11].parse().unwrap_or(0);
+                        let stt: u64 = f[12].parse().unwrap_or(0);
+                        v.push((tid, st, ut + stt));
+                    }
+                }
+            }
+        }
+    }
+    v.sort();
+    v
+}
+
+fn gettid() -> i32 {
+    // /proc/thread-self -> /proc/<pid>/task/<tid>
+    std::fs::read_link("/proc/thread-self").ok().and_then(|p| p.file_name().map(|f| f.to_string_lossy().parse().unwrap_or(0))).unwrap_or(0)
+}
+
+impl Watchdog {
+    /// starts the sampler thread. `hook_ticket` is the schedule controller's event counter (any hook hit = progress).
+    pub fn start(cli: &Cli, prop: &'static str, hook_ticket: Option<Arc<crate::sched::Controller>>) -> Arc<Watchdog> {
+        let w = Arc::new(Watchdog { beats: AtomicU64::new(0), context: Mutex::new(String::new()), armed: AtomicBool::new(false), samples: AtomicU64::new(0) });
+        let w2 = w.clone();
+        let cli = cli.clone();
+        std::thread::Builder::new()
+            .name("verif-watchdog".into())
+            .spawn(move || {
+                let me = gettid();
+                let mut last_beat = u64::MAX;
+                let mut last_ticket = u64::MAX;
+                let mut last_states: Vec<(i32, char, u64)> = vec![];
+                let mut quiet = 0u32;
+                let mut stalled_since: Option<Instant> = None;
+                loop {
+                    std::thread::sleep(Duration::from_millis(1000));
+                    if !w2.armed.load(Ordering::SeqCst) {
+                        quiet = 0;
+                        stalled_since = None;
+                        last_beat = u64::MAX;
+                        continue;
+                    }
+                    w2.samples.fetch_add(1, Ordering::SeqCst);
+                    let beat = w2.beats.load(Ordering::SeqCst);
+                    let ticket = hook_ticket.as_ref().map(|c| c.ticket.load(Ordering::SeqCst)).unwrap_or(0);
+                    let states = thread_states(me);
+                    let all_sleeping = states.iter().all(|(_, s, _)| *s == 'S');
+                    let no_progress = beat == last_beat && ticket == last_ticket && states == last_states;
+                    if beat != last_beat {
+                        stalled_since = None;
+                    } else if stalled_since.is_none() {
+                        stalled_since = Some(Instant::now());
+                    }
+                    if no_progress && all_sleeping {
+                        quiet += 1;
+                    } else {
+                        quiet = 0;
+                    }
+                    last_beat = beat;
+                    last_ticket = ticket;
+                    last_states = states.clone();
+                    if quiet >= 4 {
+                        // deadlock: write a one-violation shard report and leave
+                        let ctx = w2.context.lock().map(|c| c.clone()).unwrap_or_default();
+                        let sites = hook_ticket.as_ref().map(|c| c.last_sites()).unwrap_or_default();
+                        let rep = json!({
+                            "property_id": prop, "seed": cli.seed, "shard": cli.shard, "nshards": cli.nshards, "tier": cli.tier,
+                            "evaluations": beat, "distinct_nontrivial": 0, "counters": {"deadlocks_observed": 1}, "maxima": {}, "distinct_sets": {}, "samples": [],
+                            "violations": [{"signature": format!("{}/deadlock", prop), "seed": cli.seed, "shard": cli.shard, "nshards": cli.nshards, "tier": cli.tier,
+                                "small": cli.small, "params": cli.params, "index": -1,
+                                "detail": {"context": ctx, "threads[tid,state,cpu_ticks]": states, "last_hook_site_per_thread": sites,
+                                           "oracle": "operation unfinished, all threads sleeping, no CPU time and no hook event for 4 consecutive 1 s samples"}}],
+                            "violations_total": 1, "violation_signatures": {format!("{}/deadlock", prop): 1}, "inconclusive": [], "notes": {}, "wall_s": 0.0
+                        });
+                        if let Some(p) = &cli.out {
+                            let _ = std::fs::write(p, rep.to_string());
+                        } else {
+                            println!("{}", rep);
+                        }
+                        std::process::exit(1);
+                    }
+                    if let Some(t) = stalled_since {
+                        if t.elapsed() > Duration::from_secs(240) {
+                            // no completed operation for 4 minutes although threads are not quiescent: inconclusive
+                            let rep = json!({"property_id": prop, "evaluations": beat, "distinct_nontrivial": 0, "counters": {}, "maxima": {}, "distinct_sets": {}, "samples": [],
+                                "violations": [], "violations_total": 0, "violation_signatures": {}, "notes": {},
+                                "inconclusive": ["watchdog: an operation did not finish within 240 s while threads were still consuming CPU (loaded machine?)"], "wall_s": 0.0});
+                            if let Some(p) = &cli.out {
+                                let _ = std::fs::write(p, rep.to_string());
+                            }
+                            std::process::exit(2);
+                        }
+                    }
+                }
+            })
+            .expect("spawn watchdog");
+        w
+    }
+    pub fn arm(&self, ctx: String) {
+        *self.context.lock().unwrap() = ctx;
+        self.beats.fetch_add(1, Ordering::SeqCst);
+        self.armed.store(true, Ordering::SeqCst);
+    }
+    pub fn beat(&self) {
+        self.beats.fetch_add(1, Ordering::SeqCst);
+    }
+    pub fn disarm(&self) {
+        self.armed.store(false, Ordering::SeqCst);
+    }
+}
